@@ -94,12 +94,23 @@ def rule_default_formula(ctx):
     ok_key = isinstance(dc.key, ast.Name) and unparse(dc.generators[0].target) == val and "uniques[feature]" in unparse(dc.generators[0].iter)
     ctx.ob(R, construct(fc, "every observed value is a candidate key"), ok_key, loc(fc, dc))
 
+    fdefs = single_defs(fc.node)
+
     def classify(e):
         cc = cmp_canon(e)
         if cc is None:
             return None
         l, op, r = cc
         known = "self.values_orders[feature].values()"
+        if op in ("in", "not in") and r != known and isinstance(e, ast.Compare) and len(e.comparators) == 1:
+            # a local alias of the live order is the live order; any other table (a cache filled at fit
+            # ...) is not: update_discretizer edits self.values_orders only
+            src = unparse(inline(fc.node, e.comparators[0], defs=fdefs))
+            if src == known:
+                r = known
+            elif "self." in src and l in (val, "self.str_default"):
+                a = p_atom(f"MEMBER_OF_OTHER_TABLE[{src[:60]}]")
+                return a if op == "in" else ("not", a)
         if l == val and r == known and op in ("not in", "in"):
             return p_atom("UNKNOWN") if op == "not in" else ("not", p_atom("UNKNOWN"))
         if {l, r} == {val, "self.str_nan"} and op in ("!=", "=="):
